@@ -99,6 +99,12 @@ def rust_val(k, v):
     if k == 2: return 'true' if v else 'false'
     return str(v)
 
+def var_name(i):
+    """must match harness/src/pushio.rs var_name"""
+    k = i // 4
+    return ['n%d', 'N%d', 'n%d_', 'n%d '][i % 4] % k
+
+
 def rust_chain(cs, spec):
     s = '%s::builder()' % spec['ty']
     for c in cs:
@@ -110,7 +116,7 @@ def rust_chain(cs, spec):
         elif t == 3: s += '.with_program(vec![%s])?' % ', '.join('PushProgram::Instruction(PushInstruction::push_int(%d))' % v for v in c[1]) if c[1] else \
                           '.with_program(Vec::<PushProgram>::new())?'
         elif t == 4: s += '.with_no_program()'
-        elif t == 5: s += '.with_%s_input("v%d", %s)' % (spec['stacks'][c[1]], c[2], rust_val(c[1], c[3]))
+        elif t == 5: s += '.with_%s_input("%s", %s)' % (spec['stacks'][c[1]], var_name(c[2]), rust_val(c[1], c[3]))
         elif t == 6: s += '.with_instruction_step_limit(%d)' % c[1]
         elif t == 7: s += '.build()'
     return s
